@@ -149,6 +149,48 @@ func TileShape(r *core.Rng, target int) ([]byte, string) {
 			out = append(out, make([]byte, 64)...)
 			return out, fmt.Sprintf("tiles tiff entries entry=%x n=%d len=%d", e, n, len(out))
 		}
+		if r.Chance(1, 3) {
+			// fan-out: K pointer entries in the root directory lead to K sub-directories laid out
+			// back to back; sub-directory k holds min(k, cap) copies of one string tag (as many as
+			// the reader's pending table has free by then) whose long values start right behind it,
+			// one byte apart. Every value is attempted.
+			K, capN := r.Pick(8, 84, 84, 85, 128), r.Pick(16, 84, 128)
+			ptr := r.Pick(0x8769, 0x8769, 0x8769, 0x8825)
+			tg := r.Pick(0xa434, 0xa433, 0xa431, 0x010e, 0x0131, 0x013b, 0x8298)
+			if ptr == 0x8825 {
+				tg = r.Pick(0x001d, 0x0002, 0x001b)
+			}
+			ty := r.Pick(2, 2, 2, 7)
+			cnt := r.Pick(1025, 1537, 4096, 4097, 5000, 60000)
+			nOf := func(k int) int {
+				if k < capN {
+					return k
+				}
+				return capN
+			}
+			E := make([]int, K+1)
+			E[0] = 8 + 2 + 12*K + 4
+			for k := 0; k < K; k++ {
+				E[k+1] = E[k] + 2 + 12*nOf(k) + 4 + nOf(k) + 2
+			}
+			out := p16(append([]byte(nil), h...), K)
+			for k := 0; k < K; k++ {
+				out = p32(p32(p16(p16(out, ptr), 4), 1), E[k])
+			}
+			out = p32(out, 0)
+			for k := 0; k < K; k++ {
+				n := nOf(k)
+				out = p16(out, n)
+				v := E[k] + 2 + 12*n + 4
+				for j := 0; j < n; j++ {
+					out = p32(p32(p16(p16(out, tg), ty), cnt), v+j)
+				}
+				out = p32(out, 0)
+				out = append(out, bytes.Repeat([]byte("A"), n+2)...)
+			}
+			out = append(out, bytes.Repeat([]byte("A"), r.Pick(64, 2000, 8192))...)
+			return out, fmt.Sprintf("tiles tiff fanout K=%d cap=%d ptr=%#x tag=%#x type=%d count=%d len=%d", K, capN, ptr, tg, ty, cnt, len(out))
+		}
 		// chain: each directory holds one entry and points at the next
 		out := append([]byte(nil), h...)
 		for len(out)+18 < target && len(out) < 1<<22 {
